@@ -308,7 +308,23 @@ void c06_case(Tape& t, Ctx& ctx) {
     MatL th; VecL tm;
     grads_to_theta<S>(ge, N, th, tm);
     const ld noise_rel = S == 2 ? 1e-13L : (S == 3 ? 1e-11L : 1e-9L);  // rounding level of the reported energy (forward solve), see DESIGN s4.3
-    auto energy_at = [&](const SplineCase<D>& cc) { Spline s2(cc.T, cc.P, cc.t0, cc.bc); return (ld)s2.getEnergy(); };
+    // the perturbed problems are evaluated on ONE long-lived object through a generated update overload (or on fresh objects): the
+    // energy that is differentiated is the one a user would read after updating (a memoised energy not invalidated by one of the
+    // overloads shows only here; seeded C06-4)
+    int fd_route = t.range(0, 2);
+    {  // the time-point overload rounds durations to the grid of the knot times: use it only where that rounding is far below the FD step
+      double tend = c.t0; for (double x : c.T) tend += x;
+      double tmin = *std::min_element(c.T.begin(), c.T.end());
+      if (fd_route == 2 && ulp_of(std::max(std::fabs(c.t0), std::fabs(tend))) / tmin > 1e-13) fd_route = 1;
+    }
+    ctx.label(fd_route == 0 ? "fd:fresh-objects" : (fd_route == 1 ? "fd:reused-object(update durations)" : "fd:reused-object(update time points)"));
+    Spline fdobj(c.T, c.P, c.t0, c.bc);
+    (void)fdobj.getEnergy();
+    auto energy_at = [&](const SplineCase<D>& cc) {
+      if (fd_route == 0) { Spline s2(cc.T, cc.P, cc.t0, cc.bc); return (ld)s2.getEnergy(); }
+      if (fd_route == 1) fdobj.update(cc.T, cc.P, cc.t0, cc.bc); else fdobj.update(cc.time_points(), cc.P, cc.bc);
+      return (ld)fdobj.getEnergy();
+    };
     ld E0 = fabsl((ld)sp.getEnergy());
     auto fd_check = [&](const std::string& name, ld analytic, ld sigma, ld nat, double scale, auto&& setter) -> bool {
       auto Dh = [&](double h) {
